@@ -6,7 +6,7 @@ ROOT = os.path.dirname(os.path.dirname(os.path.abspath(__file__)))
 MC = "model_checking"; EX = "exploration"
 P = {
  "C01": (MC, "XPLORE+refcheck", "bounded-exhaustive enumeration of predicate-graph *encodings* (all node/edge lists up to the bound, incl. non-topological numberings, multi-edges, cycles, malformed slices) x node-program roles x solution sets x both config values x both call patterns, each run through the real checker and compared with the reference graph semantics; observation through echo reads", "4 C01", "reference graph semantics (Appendix A) is the oracle; the VM itself is trusted here (it is the subject of C05-C12); node programs come from a fixed role menu", "explicit enumeration of graph encodings + reference-model comparison on the real checker"),
- "C02": (MC, "rayon-shim+XPLORE", "controlled-scheduler exploration of the real checker and VM: every completion order of every parallel section with <=3 tasks, deviation-bounded beyond; op-granular preemptive interleavings (shuttle runtime, own bounded DFS scheduler) of compute children; sync-operation-granular interleavings in a build whose essential-vm/essential-check come from a token-rewritten copy with shuttle's Mutex/RwLock/Once/atomics (mode S, syncmc); each schedule's result must equal the sequential one; real-rayon conformance runs bind the shim to the implementation", "4 C02", "the shim's model of rayon's result assembly (checked against rayon 1.10 sources and by conformance runs); HashMap iteration order, and synchronisation reached through paths other than std::sync / core::sync::atomic / std::thread, are outside", "stateless schedule enumeration (completion orders, preemption-bounded VM-op interleavings, deviation-bounded sync-operation interleavings of a shuttle-bound copy) of the real code under a rayon stand-in"),
+ "C02": (MC, "rayon-shim+XPLORE", "controlled-scheduler exploration of the real checker and VM: every completion order of every parallel section with <=3 tasks, deviation-bounded beyond; op-granular preemptive interleavings (shuttle runtime, own bounded DFS scheduler) of compute children; sync-operation-granular interleavings in a build whose essential-vm/essential-check come from a token-rewritten copy with shuttle's Mutex/RwLock/Once/atomics (mode S, syncmc); each schedule's result must equal the sequential one; real-rayon conformance runs bind the shim to the implementation", "4 C02", "the shim's model of rayon's result assembly (checked against rayon 1.10 sources and by conformance runs); HashMap iteration order is covered by a sweep over hasher seeds in mode S only (8 quick / 32 thorough seeds, not an enumeration of orders); synchronisation reached through paths other than std::sync / core::sync::atomic / std::thread is outside", "stateless schedule enumeration (completion orders, preemption-bounded VM-op interleavings, deviation-bounded sync-operation interleavings of a shuttle-bound copy) of the real code under a rayon stand-in"),
  "C03": (MC, "XPLORE+refcheck", "bounded-exhaustive enumeration of pre-states, declared/computed mutation sets, read requests (op, contract, key, count) and placements of the reading node in the graph; every value returned to a post read and every pass attribution compared with the overlay reference", "4 C03", "the mock state's key successor / range convention (that of the repository's own test state)", "explicit enumeration of state/mutation/read configurations against an overlay reference on the real two-pass checker"),
  "C04": (EX, "enumeration", "all solution sets of 1..3(4) solutions from a colliding domain x all permutations; metamorphic oracle across permutations (address, set verdict, two-pass verdict, gas, computed mutations) plus the one-value-per-slot invariant", "4 C04", "small colliding domain of contracts/keys/values; predicates from a fixed menu", "bounded-exhaustive permutation enumeration with a metamorphic oracle"),
  "C05": (MC, "VMGRAPH(stateright)+XPLORE", "explicit-state search (stateright BFS) over real VM configurations: every op x boundary-word pushes from several initial states incl. at-limit shapes; invariant (no panic, bounds on stack/memory/repeat depth/compute depth) checked after every transition, also inside compute children via the on_step hook; both arithmetic profiles; worker death (abort/hang) is observed and classified", "4 C05", "boundary word alphabet; depth bound; Compute breadth beyond a few thousand excluded", "explicit-state BFS over VM configurations with the real step function + bounded-exhaustive hole-program exploration"),
